@@ -92,6 +92,12 @@ def _machine(cfg: HistoryProperty, res: ShardResult, max_rules: int):
             def throttle(self, ssel, csel, fsel):
                 self._do(["throttle", ssel, csel, fsel])
 
+        if cfg.instr_bias.get("reinject"):
+
+            @rule(gsel=st.integers(0, 5))
+            def reinject(self, gsel):
+                self._do(["reinject", gsel])
+
         if cfg.instr_bias.get("relocate"):
 
             @rule(which=st.integers(0, 1), esel=st.integers(0, 5), site=st.integers(0, 9))
@@ -100,9 +106,9 @@ def _machine(cfg: HistoryProperty, res: ShardResult, max_rules: int):
 
         if cfg.instr_bias.get("inject"):
 
-            @rule(o=st.integers(0, 9), d=st.integers(0, 9))
-            def inject(self, o, d):
-                self._do(["inject", o, d])
+            @rule(o=st.integers(0, 9), d=st.integers(0, 9), m=st.integers(0, 11))
+            def inject(self, o, d, m):
+                self._do(["inject", o, d, m])
 
         if cfg.probes and cfg.instr_bias.get("batches"):
 
